@@ -61,6 +61,7 @@ KNOWN = {
     "F31": (("hole-comment", "comment-in-pattern", "comment-in-type"), {"comments:reordered"}),   # residual class only: a comment INSIDE an interpolation hole, a pattern or a type (rendered as one piece of text, no AST node to stay with) overtakes other comments
     "F89": (("comment-in-empty-brackets", "comment-before-comma-closer"), {"comments:reordered"}),   # residue of the F31 repair: a comment followed only by commas (and comments) up to the closing bracket is not recognised as the last thing in the brackets
     "F90": ("comment-in-select-sources", {"comments:reordered"}),   # the sources of a `! [ .. ]` are not nodes a comment can attach to: a comment among them moves out and can overtake another
+    "F91": ("hole-backslash", {"reparse"}),   # PARSER defect: a string term at the start of a step whose hole holds a backslash (a resource type `\\F`) does not parse: the string-PATTERN alternative is tried first and aborts on the 'invalid escape'
     "F32": ("two-comments", {"comments:merged"}),           # two trailing comments of one node land on one line
     "F33": ("multi-pattern", {"ast"} | IK),                      # a """ string pattern is re-rendered as "..." (StringStyle changes)
     "F34": ("lower-tuple-type", {"reparse"}),               # `'e[...]` rendered as `e[...'e]`
